@@ -1,12 +1,11 @@
 ----------------------------- MODULE TraceLink -----------------------------
 (***************************************************************************)
 (* Probe programs -- plain non-test binaries importing the library plus a   *)
-(* chosen set of extra packages -- are built from the working tree and run; *)
-(* each run is one trace line {extra, outcome}.  Checked per line:          *)
-(*   - the Link model's prediction for that program equals what the real    *)
-(*     binary did (the binding of the model to the toolchain: a mismatch is *)
-(*     a MACHINERY fault, the model is wrong);                              *)
-(*   - the property: the outcome is "ok".                                   *)
+(* chosen set of extra packages, for a chosen GOOS/GOARCH -- are built from *)
+(* the working tree and run; each run is one trace line                     *)
+(* {platform, extra, outcome}.  Checked per line: the property (the outcome *)
+(* is "ok"), and the binding of the model to the toolchain (a program for   *)
+(* which the model predicts a panic must not succeed).                      *)
 (* (The values the probes returned are validated by TraceSecp separately.)  *)
 (***************************************************************************)
 EXTENDS Link, LinkEnv, Sequences, Json, IOUtils, TLC
@@ -18,23 +17,24 @@ Ev == Trace[l]
 ToSet(s) == {s[i] : i \in 1..Len(s)}
 
 TraceInit == /\ Trace[1].op = "Header" /\ l = 2 /\ nbad = 0 /\ nmach = 0
-             /\ extra = {} /\ registry = {} /\ phase = "linked" /\ outcome = "none"
+             /\ platform = "none" /\ extra = {} /\ registry = {} /\ phase = "linked" /\ outcome = "none"
 TraceNext ==
   /\ l <= Len(Trace) /\ l' = l + 1
-  \* one probe = the model's Link ; RunInits ; CallHash for that program
+  \* one probe = the model's Link ; RunInits ; CallHash for that program on that platform
+  /\ platform' = Ev.platform
   /\ extra' = ToSet(Ev.extra)
-  /\ registry' = UNION {RegOf(p) : p \in LibClosure \cup extra'}
+  /\ registry' = UNION {RegOf(p) : p \in LibClosure[platform'] \cup extra'}
   /\ phase' = "done"
   /\ outcome' = IF Needs \subseteq registry' THEN "ok" ELSE "panic"
-  /\ LET ex == ToSet(Ev.extra)
-         predicted == Predict(ex)
-     IN  IF predicted # Ev.outcome
-         THEN /\ PrintT(<< "MACHINERY", l, "Probe", "model-mismatch", << Ev.extra, predicted, Ev.outcome >> >>)
-              /\ nmach' = nmach + 1 /\ nbad' = nbad
-         ELSE IF Ev.outcome # "ok"
-         THEN /\ PrintT(<< "DISAGREE", l, "Probe", "hashing-panics", << Ev.extra, Ev.detail >> >>)
-              /\ nbad' = nbad + 1 /\ nmach' = nmach
-         ELSE UNCHANGED << nbad, nmach >>
+  /\ IF Ev.outcome # "ok"
+     \* the property: hashing works in EVERY program
+     THEN /\ PrintT(<< "DISAGREE", l, "Probe", "hashing-panics", << Ev.platform, Ev.extra, Ev.detail >> >>)
+          /\ nbad' = nbad + 1 /\ nmach' = nmach
+     \* the binding: a program the model says must panic did not -- the model is wrong about the toolchain
+     ELSE IF outcome' = "panic"
+     THEN /\ PrintT(<< "MACHINERY", l, "Probe", "model-too-pessimistic", << Ev.platform, Ev.extra >> >>)
+          /\ nmach' = nmach + 1 /\ nbad' = nbad
+     ELSE UNCHANGED << nbad, nmach >>
 TraceSpec == TraceInit /\ [][TraceNext]_tvars
 Finished == l = Len(Trace) + 1 => PrintT(<< "TRACE-END", Len(Trace), nbad, nmach >>)
 TraceAccepted == TLCGet("stats").diameter = Len(Trace)
